@@ -52,9 +52,32 @@ def inside(env, fixture, hist, read):
     try:
         x.replay(hist)
         n = len(x.sql)
+        facts = dict(x.__dict__.get('facts', {}))
         o = x.apply(read)
+        inside.facts = facts
         return o, len(x.sql) - n
     finally: x.finish()
+
+def fact_conflict(read, o, facts):
+    """the in-session answer contradicts an unconditional fact about what the program did earlier"""
+    if o[0] != 'ok': return None
+    k = read[0]
+    if k == 'r_attr':
+        f = facts.get((read[1], read[2]))
+        if f and f[0] == 'val' and o[1] != f[1]: return 'assigned-value-lost'
+    elif k in ('r_citer', 'r_cselect'):
+        f = facts.get((read[1], read[2]))
+        if f:
+            if f[0] == 'is' and o[1] != f[1]: return 'assigned-collection-differs'
+            if f[0] == 'has' and f[1] not in o[1]: return 'added-item-missing'
+            if f[0] == 'hasnot' and f[1] in o[1]: return 'removed-item-present'
+    elif k == 'r_cin':
+        f = facts.get((read[1], read[2]))
+        if f:
+            if f[0] == 'has' and f[1] == read[3] and o[1] is not True: return 'added-item-missing'
+            if f[0] == 'hasnot' and f[1] == read[3] and o[1] is not False: return 'removed-item-present'
+            if f[0] == 'is' and o[1] != (read[3] in f[1]): return 'assigned-collection-differs'
+    return None
 
 def readsig(env, read):
     k = read[0]
@@ -94,6 +117,14 @@ def worker(args):
             sub.count('reads_compared')
             if o1[0] == 'skip' and o3[0] == 'skip': continue
             if ncalls == 0 and o1[0] == 'ok': sub.count('reads_answered_from_cache')
+            lost = fact_conflict(r, o1, inside.facts)
+            if lost:
+                sub.count('fact_checks_failed')
+                small = sx.shrink(list(hist) + [r], lambda h: bool(fact_conflict(h[-1], inside(env, fixture, h[:-1], h[-1])[0], inside.facts)))[:-1]
+                sub.violation('%s|%s|%s|%s' % (rel, sx.kinds(small) or '-', readsig(env, r), lost),
+                              dict(model=name, fixture=fixture, history=small, read=r, in_session=o1, fresh_session=None),
+                              'after %r the read %r answers %r, contradicting what the program did (%s)' % (small, r, o1, lost))
+                continue
             if o1 != o3:
                 pre = (sx.kinds(hist), readsig(env, r), o1[0], o3[0])
                 if pre in presigs:
